@@ -248,8 +248,8 @@ def run(ctx):
                 for mi, mode in enumerate(modes):
                     try:
                         gl, args = L.make_inputs(before, ep, rngi.fork("%s/%s/%d/%d" % (name, p, epi, mi)), mode)
-                    except L.Unsupported:
-                        continue
+                    except (L.Unsupported, IndexError, KeyError, TypeError):
+                        continue        # ill-formed or unsupported module: nothing to run (the model tie judges it)
                     len_ = p in LENIENT
                     run_jobs.append(L.run_job(before, epi, gl, args, FUEL, len_))
                     run_jobs.append(L.run_job(after, epi, gl, args, FUEL, len_))
